@@ -474,8 +474,8 @@ theorem adoDeliver_agenda (cfg : Cfg) (st : St α) (i : Id) (n : Notif α) : (ad
   all_goals first | rfl | exact hs _
 
 /-- `so_i.run`, entered with observer `i` exempt from the second clause (its `run` item was just dequeued). -/
-theorem soRun_linv (cfg : Cfg) {st : St α} (i : Id) (h : LInvX (fun _ => False) (fun k => k = i) st) :
-    LInv (soRun cfg st i) := by
+theorem soRun_linv (cfg : Cfg) {st : St α} (i : Id) (h : LInvX (fun _ => False) (fun k => k = i) st)
+    (hag : st.agenda = []) : LInv (soRun cfg st i) := by
   unfold soRun
   split
   · -- nothing queued: release ownership
@@ -499,8 +499,10 @@ theorem soRun_linv (cfg : Cfg) {st : St α} (i : Id) (h : LInvX (fun _ => False)
       · subst hki; exact hq1
       · exact h.l1 k id (by simpa [hki] using hqk)
     have h2 := adoDeliver_linv cfg i n h1
+    have hag2 : (adoDeliver cfg { st with soQueue := upd st.soQueue i rest, fed := upd st.fed i (st.fed i ++ [n]) } i n).1.agenda = [] := by
+      rw [adoDeliver_agenda]; exact hag
     dsimp only
-    generalize adoDeliver cfg _ i n = r at h2 ⊢
+    generalize adoDeliver cfg _ i n = r at h2 hag2 ⊢
     split
     · -- the work item raised: queue dropped, faulted, the exception leaves start()
       refine ⟨?_, ?_, h2.l3, h2.l4⟩
@@ -526,6 +528,188 @@ theorem soRun_linv (cfg : Cfg) {st : St α} (i : Id) (h : LInvX (fun _ => False)
         · exact Or.inl h'
         · exact Or.inr (Or.inl h')
         · exact Or.inr (Or.inr (Or.inl h'))
-        · sorry
+        · rw [hag2] at h'; exact absurd h' (by simp)
+
+theorem doTask_linv (cfg : Cfg) {st : St α} (t : Task) (ts : List Task) (h : LInv st) (hag : st.agenda = t :: ts) :
+    LInv (doTask cfg { st with agenda := ts } t) := by
+  -- popping a task that is not `resched k` keeps every clause
+  have hpop : (∀ k, t ≠ .resched k) → LInv { st with agenda := ts } := by
+    intro hne
+    refine ⟨h.l1, ?_, h.l3, h.l4⟩
+    intro k hk hacq
+    rcases h.l2 k hk hacq with h' | h' | h' | h'
+    · exact Or.inl h'
+    · exact Or.inr (Or.inl h')
+    · exact Or.inr (Or.inr (Or.inl h'))
+    · rw [hag] at h'
+      rcases List.mem_cons.mp h' with h' | h'
+      · exact absurd h'.symm (hne k)
+      · exact Or.inr (Or.inr (Or.inr h'))
+  cases t with
+  | act who a =>
+    have h0 := hpop (by intro k; simp)
+    cases a with
+    | sub j =>
+      have := doSub_linv cfg who j h0
+      simp only [doTask]
+      exact this.congr rfl rfl rfl rfl rfl rfl rfl (fun _ h => List.mem_append_right _ h)
+    | unsub j => exact doUnsub_linv j h0
+    | dispose => exact h0.congr rfl rfl rfl rfl rfl rfl rfl (fun _ h => h)
+  | sadDispose i => exact sadDispose_linv i (hpop (by intro k; simp))
+  | handle j => exact (hpop (by intro k; simp)).congr rfl rfl rfl rfl rfl rfl rfl (fun _ h => h)
+  | resched i =>
+    have h0 : LInvX (fun _ => False) (fun k => k = i) { st with agenda := ts } := by
+      refine ⟨h.l1, ?_, h.l3, h.l4⟩
+      intro k hk hacq
+      rcases h.l2 k id hacq with h' | h' | h' | h'
+      · exact Or.inl h'
+      · exact Or.inr (Or.inl h')
+      · exact Or.inr (Or.inr (Or.inl h'))
+      · rw [hag] at h'
+        rcases List.mem_cons.mp h' with h' | h'
+        · simp at h'; exact absurd h' hk
+        · exact Or.inr (Or.inr (Or.inr h'))
+    exact (scheduleRun_linv i h0).weaken (fun _ h => h) (fun k hk => absurd hk.1 hk.2)
+
+theorem doCall_linv (cfg : Cfg) {st : St α} (k : Nat) (c : Call α) (h : LInv st) (hag : st.agenda = []) :
+    LInv (doCall cfg st k c) := by
+  have h2 : LInv { st with curCall := k, evs := st.evs ++ [EvR.call k st.clock] } :=
+    h.congr rfl rfl rfl rfl rfl rfl rfl (fun _ h => h)
+  have hnone : ∀ (ag : List Task), LInv { st with curCall := k, evs := st.evs ++ [EvR.call k st.clock], agenda := ag } :=
+    fun ag => h.congr rfl rfl rfl rfl rfl rfl rfl (fun i hi => by rw [hag] at hi; exact absurd hi (by simp))
+  unfold doCall
+  cases c with
+  | next v => exact emit_linv cfg _ h2
+  | error e => exact emit_linv cfg _ h2
+  | completed => exact emit_linv cfg _ h2
+  | sub i => exact hnone _
+  | unsub i => exact hnone _
+  | dispose => exact hnone _
+
+theorem advance_lframe (st : St α) (due : Nat) :
+    (advance st due).soQueue = st.soQueue ∧ (advance st due).faulted = st.faulted ∧ (advance st due).acquired = st.acquired ∧
+    (advance st due).serDisposed = st.serDisposed ∧ (advance st due).pending = st.pending ∧
+    (advance st due).serCur = st.serCur ∧ (advance st due).nextId = st.nextId ∧ (advance st due).agenda = st.agenda := by
+  unfold advance
+  dsimp only
+  repeat' split
+  all_goals simp
+
+/-- **Every step preserves the liveness invariant.** -/
+theorem step_linv (cfg : Cfg) {st : St α} (h : LInv st) : LInv (step cfg st) := by
+  unfold step
+  split
+  · exact h
+  · split
+    · rename_i t ts hag
+      exact doTask_linv cfg t ts h hag
+    · rename_i hag
+      split
+      · exact h
+      · rename_i it rest hp
+        obtain ⟨f1, f2, f3, f4, f5, f6, f7, f8⟩ := advance_lframe { st with pending := rest } it.due
+        -- after the dequeue: every clause but the second one for the owner of a live `run` item
+        have hrest : ∀ x ∈ rest, x ∈ st.pending := fun x hx => by rw [hp]; exact List.mem_cons_of_mem _ hx
+        have hdeq : ∀ (X2 : Id → Prop), (∀ k, ¬X2 k → runPending st.pending k → runPending rest k) →
+            LInvX (fun _ => False) X2 (advance { st with pending := rest } it.due) := by
+          intro X2 hrp
+          refine ⟨?_, ?_, ?_, ?_⟩
+          · rw [f1, f2, f3]; exact h.l1
+          · intro k hk hacq
+            rw [f3] at hacq
+            rw [f2, f4, f5, f8]
+            rcases h.l2 k id hacq with h' | h' | h' | h'
+            · exact Or.inl h'
+            · exact Or.inr (Or.inl h')
+            · exact Or.inr (Or.inr (Or.inl (hrp k hk h')))
+            · exact Or.inr (Or.inr (Or.inr h'))
+          · rw [f6, f7, f5]
+            intro k id hs
+            exact ⟨(h.l3 k id hs).1, fun x hx => (h.l3 k id hs).2 x (hrest x hx)⟩
+          · rw [f5, f7]
+            exact fun x hx => h.l4 x (hrest x hx)
+        have hag2 : (advance { st with pending := rest } it.due).agenda = [] := by rw [f8]; exact hag
+        -- a pending run of k that is not the dequeued item is still pending
+        have hkeep : ∀ k, (isRun k it = false ∨ it.cancelled = true) → runPending st.pending k → runPending rest k := by
+          intro k hk hr
+          obtain ⟨x, hx, h1, h2⟩ := hr
+          rw [hp] at hx
+          rcases List.mem_cons.mp hx with rfl | hx
+          · rcases hk with hk | hk
+            · rw [hk] at h1; exact absurd h1 (by simp)
+            · rw [hk] at h2; exact absurd h2 (by simp)
+          · exact ⟨x, hx, h1, h2⟩
+        unfold invoke
+        split
+        · rename_i hc
+          exact hdeq _ (fun k _ hr => hkeep k (Or.inr hc) hr)
+        · rename_i hc
+          split
+          · rename_i kk c hk
+            refine doCall_linv cfg _ _ (hdeq _ (fun k _ hr => hkeep k (Or.inl ?_) hr)) hag2
+            simp [isRun, hk]
+          · rename_i i hk
+            refine soRun_linv cfg i (hdeq _ (fun k hki hr => hkeep k (Or.inl ?_) hr)) hag2
+            simp only [isRun, hk, beq_eq_false_iff_ne, ne_eq]
+            exact fun e => hki e.symm
+
+theorem schedule_go_linv (cs : List (Nat × Call α)) (k : Nat) (st : St α) (h : LInv st)
+    (hc : ∀ i, st.acquired i = false) : LInv (schedule.go cs k st) ∧ ∀ i, (schedule.go cs k st).acquired i = false := by
+  induction cs generalizing k st with
+  | nil => exact ⟨h, hc⟩
+  | cons c cs ih =>
+    obtain ⟨t, c⟩ := c
+    simp only [schedule.go]
+    refine ih _ _ ?_ hc
+    refine ⟨h.l1, ?_, ?_, ?_⟩
+    · intro i _ hacq; rw [hc i] at hacq; exact absurd hacq (by simp)
+    · intro i id hs
+      have := h.l3 i id hs
+      refine ⟨Nat.lt_succ_of_lt this.1, ?_⟩
+      intro it hit hid
+      rcases (mem_pqInsert _ _ _).mp hit with rfl | hit
+      · simp at hid; omega
+      · exact this.2 it hit hid
+    · intro it hit
+      rcases (mem_pqInsert _ _ _).mp hit with rfl | hit
+      · simp
+      · exact Nat.lt_succ_of_lt (h.l4 it hit)
+
+theorem reach_linv {cfg : Cfg} {calls : List (Nat × Call α)} {st : St α} (h : Reach cfg calls st) : LInv st := by
+  induction h with
+  | init =>
+    refine (schedule_go_linv calls 0 {} ?_ (fun _ => rfl)).1
+    exact ⟨fun _ _ h => absurd rfl h, fun _ _ h => by simp at h, fun _ _ h => by simp at h, fun _ h => by simp at h⟩
+  | step _ ih => exact step_linv cfg ih
+
+/-- **Quiescence.**  When `start()` has returned normally (nothing left to run, no exception escaped),
+every ScheduledObserver that has not been disposed has an empty queue: everything queued for it has
+been handed to its AutoDetachObserver, in order, exactly once. -/
+theorem quiescent_drained {cfg : Cfg} {calls : List (Nat × Call α)} {st : St α} (h : Reach cfg calls st)
+    (hidle : st.agenda = [] ∧ st.pending = []) (hc : st.crashed = none) (i : Id) (hd : st.serDisposed i = false) :
+    st.soQueue i = [] ∧ st.fed i = st.enq i := by
+  have hL := reach_linv h
+  have hI := reach_inv h
+  have hf : st.faulted i = false := by
+    cases hfi : st.faulted i with
+    | false => rfl
+    | true => exact absurd hc (hI.crashFault i hfi)
+  have hq : st.soQueue i = [] := by
+    cases hq : st.soQueue i with
+    | nil => rfl
+    | cons n rest =>
+      exfalso
+      rcases hL.l1 i id (by rw [hq]; simp) with h' | h'
+      · rw [hf] at h'; exact absurd h' (by simp)
+      · rcases hL.l2 i id h' with h'' | h'' | h'' | h''
+        · rw [hf] at h''; exact absurd h'' (by simp)
+        · rw [hd] at h''; exact absurd h'' (by simp)
+        · obtain ⟨x, hx, _⟩ := h''
+          rw [hidle.2] at hx; exact absurd hx (by simp)
+        · rw [hidle.1] at h''; exact absurd h'' (by simp)
+  refine ⟨hq, ?_⟩
+  have := hI.fifo i hf
+  rw [hq] at this
+  simpa using this
 
 end Replay
